@@ -367,7 +367,9 @@ func c12GenData(r *Rng, depth int, o *c12GenOpts, force byte) any {
 		l := []any{}
 		tables := r.Chance(1, 2)
 		for i := 0; i < n; i++ {
-			if tables {
+			if tables && i > 0 && r.Chance(2, 3) {
+				l = append(l, c12CloneData(l[0]))
+			} else if tables {
 				l = append(l, c12GenData(r, depth-1, o, 'm'))
 			} else {
 				l = append(l, c12GenData(r, depth-1, o, 0))
@@ -396,6 +398,25 @@ func c12GenData(r *Rng, depth int, o *c12GenOpts, force byte) any {
 		}
 		return c12PickString(r, c12Strings2, o.enc, o.input)
 	}
+}
+
+// c12CloneData: a deep copy (records of the same shape in a list)
+func c12CloneData(v any) any {
+	switch x := v.(type) {
+	case []any:
+		l := make([]any, len(x))
+		for i := range x {
+			l[i] = c12CloneData(x[i])
+		}
+		return l
+	case *c12Map:
+		m := &c12Map{Keys: append([]string{}, x.Keys...)}
+		for _, e := range x.Vals {
+			m.Vals = append(m.Vals, c12CloneData(e))
+		}
+		return m
+	}
+	return v
 }
 
 // c12Inject puts `what` at a random place reachable through struct fields and list elements
